@@ -282,7 +282,7 @@ impl Property for P {
     fn cases(tier: Tier) -> u64 {
         match tier {
             Tier::Quick => 15_000,
-            Tier::Thorough => 150_000,
+            Tier::Thorough => 500_000,
         }
     }
     fn strategy(_tier: Tier) -> BoxedStrategy<Case> {
